@@ -28,7 +28,7 @@ CARRIERS = ["dt64ns", "dt64s", "epoch-int", "epoch-float", "epoch-list", "dtinde
 
 
 def roc_case(ctx, x, t, thr, carrier, tag) -> None:
-    kw = {"inp": gen.arr(x), "tinp": gen.times(t, carrier), "threshold": thr}
+    kw = {"inp": gen.carried(ctx.rng, x, poisons=(0.0, 1e6, -1e6)), "tinp": gen.times(t, carrier), "threshold": thr}
     o, _ = client.expect(ctx, "C10", "qartod.rate_of_change_test", kw,
                          lambda: models.rate_of_change(x, t, thr),
                          logical={"x": x, "t": t, "threshold": thr, "time_carrier": carrier}, hist="rate_of_change")
@@ -40,7 +40,8 @@ def roc_case(ctx, x, t, thr, carrier, tag) -> None:
 
 
 def speed_case(ctx, lon, lat, t, st, ft, carrier, tag) -> None:
-    kw = {"lon": gen.arr(lon), "lat": gen.arr(lat), "tinp": gen.times(t, carrier),
+    kw = {"lon": gen.carried(ctx.rng, lon, poisons=(0.0, 120.0, -60.0)), "lat": gen.carried(ctx.rng, lat, poisons=(0.0, 80.0, -45.0)),
+          "tinp": gen.times(t, carrier),
           "suspect_threshold": st, "fail_threshold": ft}
     o, _ = client.expect(ctx, "C10", "argo.speed_test", kw,
                          lambda: models.speed(lon, lat, t, st, ft),
